@@ -170,3 +170,29 @@ VARIANTS += [
     dict(prop="C02", name="open-without-validation", expect="ORDER-open|protocol::ipa_prf::boolean_ops::share_conversion_aby::convert_to_fp25519",
          edits=[dict(file="ipa-core/src/protocol/ipa_prf/boolean_ops/share_conversion_aby.rs", find="        validated_partial_reveal(ctx.narrow(&Step::RevealY), record_id, Role::H3, &sh_y).await?;", replace="        crate::protocol::basics::partial_reveal(ctx.narrow(&Step::RevealY), record_id, Role::H3, &sh_y).await?;")]),
 ]
+
+MMF = "ipa-core/src/protocol/basics/mul/malicious.rs"
+RHF = "ipa-core/src/report/hybrid.rs"
+VARIANTS += [
+    # ---------------- C04 ----------------
+    dict(prop="C04", name="reveal-ne-to-eq", expect="GUARD-reveal",
+         edits=[dict(file=RVF, find="        if share_from_left == share_from_right {", replace="        if share_from_left != share_from_right {")]),
+    dict(prop="C04", name="mul-no-accumulate", expect="WIRE-mul|accumulate-on-every-ok",
+         edits=[dict(file=MMF, find="    random_constant_ctx.accumulate_macs(record_id, &malicious_ab);\n", replace="    let _ = &random_constant_ctx;\n")]),
+    dict(prop="C04", name="mul-x-twice", expect="WIRE-mul|rx-times-induced-x",
+         edits=[dict(file=MMF, find="            a.rx(),\n            &b_induced_share,", replace="            &a.x().access_without_downgrade().induced(),\n            &b_induced_share,")]),
+    dict(prop="C04", name="total-calls-two", expect="AFFINE-ids|total@",
+         edits=[dict(file=VAF, find="        const TOTAL_CALLS_TO_PRSS: usize = 3;", replace="        const TOTAL_CALLS_TO_PRSS: usize = 2;")]),
+    dict(prop="C04", name="coefficient-expanded", expect="WIRE-acc|per-lane-coefficient",
+         edits=[dict(file=VAF, find="        let random_constant = prss.generate(record_id);", replace="        let random_constant = prss\n            .generate::<Replicated<F::ExtendedField>, _>(record_id)\n            .expand();")]),
+    dict(prop="C04", name="reveal-after-validate-swapped", expect="ORDER-prf|validate-before-reveal",
+         edits=[dict(file=PEF, find="    // validate everything before reveal\n    ctx.validate_record(record_id).await?;\n    let (gr, z): (", replace="    let (gr, z): ("),
+                dict(file=PEF, find="    .await?;\n\n    //compute R^(1/z) to u64", replace="    .await?;\n    ctx.validate_record(record_id).await?;\n\n    //compute R^(1/z) to u64")]),
+    # ---------------- C05 ----------------
+    dict(prop="C05", name="split-order-swapped", expect="FIELDS|order",
+         edits=[dict(file=RHF, find="        let (match_key, bits) = bits.read();\n        let (value, bits) = bits.read();\n        let (breakdown_key, _) = bits.read();\n        (match_key, value, breakdown_key)", replace="        let (match_key, bits) = bits.read();\n        let (breakdown_key, bits) = bits.read();\n        let (value, _) = bits.read();\n        (match_key, value, breakdown_key)")]),
+    dict(prop="C05", name="h2-check-dropped", expect="GUARD-hash|h2_verify",
+         edits=[dict(file=SHM, find="    // check x2\n    if hash_x2.ct_ne(&hash_h3).into() {", replace="    // check x2\n    if hash_x2.ct_ne(&hash_x2).into() {")]),
+    dict(prop="C05", name="rows-before-verify", expect="ORDER-shuffle|verify-before-release",
+         edits=[dict(file=SHM, find="    .await?;\n\n    // truncate tags from output_shares\n    // verify_shuffle ensures that truncate_tags yields the correct rows\n    Ok(truncate_tags::<S>(&shuffled_shares))", replace="    .await\n    .ok();\n\n    Ok(truncate_tags::<S>(&shuffled_shares))")]),
+]
